@@ -103,7 +103,7 @@ PROPS = {
         "trusted_base": ["model files: lean/I2P/NetAddr.lean, lean/I2P/RouterAddrAcc.lean, lean/I2P/Mapping.lean, lean/I2P/Data.lean"],
     },
     "C19": {
-        "suites": PARSE_GROUPS + ",C13,C17",
+        "suites": PARSE_GROUPS + ",C13,C17,BUILDER",
         "assumptions": COMMON_ASSUME,
         "trusted_base": [MODEL_FILES],
     },
@@ -169,5 +169,26 @@ PROPS = {
             "mappings built from Go maps are compared in the specification's canonical order (sorted bytewise by key)",
         ],
         "trusted_base": [MODEL_FILES, "spec transcriptions: harness/spec.go, lean/I2P/Spec/Codec.lean, lean/I2P/Spec/Structs.lean, lean/I2P/Tables.lean"],
+    },
+    "C18": {
+        "suites": "C18",
+        "race": True,     # harness built with -race and run as .build/harness-race (GORACE=halt_on_error=1)
+        "gen": True,      # lean/I2P/Gen/Effects.lean is re-extracted from the SSA form of /repo on every run
+        "claim": "proof (partial)",
+        "assumptions": COMMON_ASSUME + [
+            "claimed as proof (partial): Theorem 1 (Props/C18.lean schedule_independent) covers every interleaving of an abstract "
+            "shared-memory machine; its premise (no shared write on a read path) is tied to the code by Theorem 2 over SSA effect facts, "
+            "not by a proof about Go semantics",
+            "the Go memory model, scheduler and runtime are trusted; the race half is observed by the Go race detector "
+            "(8 goroutines x R rounds of every read-only method on one shared value of every structure), which finds only races that occur in the runs",
+            "soundness of the effect extractor's backward slice (extract/effects.go) is trusted; origins it cannot classify are emitted as 'unknown' and rejected",
+            "the invariant CapTight (cap == len for the receiver-derived append bases, today Certificate.kind) is checked by reflection on values from every parser/constructor path, not proved",
+            "external callees handed shared memory — github.com/go-i2p/logger / logrus, samber/oops, go-i2p/crypto and the value-oriented standard-library "
+            "packages (Props/C18.lean readOnlyExternalGroups) — are assumed goroutine-safe and not to modify their arguments, except the known writers "
+            "tabulated in extract/effects.go (extWriteArg), which are judged by the origin of the written argument",
+            "results that legitimately depend on the clock (IsExpired and its callers Lease.Validate, Lease2.Validate, OfflineSignature.Validate/IsValid/String) are excluded from the result comparison",
+        ],
+        "trusted_base": ["model file: lean/I2P/Conc.lean (abstract machine)", "translator /verif/extract/effects.go (Gen/Effects.lean)",
+                         "Go race detector (-race build of the harness)"],
     },
 }
